@@ -26,8 +26,19 @@ pub struct AsyncClient {
     inner: Arc<AsyncClientInner>,
 }
 
+/// The connection's write half plus a marker for a frame in progress.
+///
+/// `mid_frame` is set before the first byte of a request is written and cleared
+/// after the last one is flushed. A caller that takes the lock and finds it set
+/// knows the previous holder stopped mid-frame (its future was dropped, or its
+/// write failed), so part of a frame may already be on the wire.
+struct RequestWriter {
+    io: BufWriter<OwnedWriteHalf>,
+    mid_frame: bool,
+}
+
 struct AsyncClientInner {
-    writer: Mutex<BufWriter<OwnedWriteHalf>>,
+    writer: Mutex<RequestWriter>,
     pending: StdMutex<PendingRequests>,
     next_id: AtomicU64,
     shutdown: StdMutex<Option<oneshot::Sender<()>>>,
@@ -103,7 +114,10 @@ impl AsyncClient {
         let (read_half, write_half) = stream.into_split();
         let (shutdown_tx, shutdown_rx) = oneshot::channel();
         let inner = Arc::new(AsyncClientInner {
-            writer: Mutex::new(BufWriter::new(write_half)),
+            writer: Mutex::new(RequestWriter {
+                io: BufWriter::new(write_half),
+                mid_frame: false,
+            }),
             pending: StdMutex::new(HashMap::new()),
             next_id: AtomicU64::new(1),
             shutdown: StdMutex::new(Some(shutdown_tx)),
@@ -657,8 +671,20 @@ impl AsyncClient {
 
     async fn write_request(&self, msg: &Message) -> Result<(), RepeError> {
         let mut writer = self.inner.writer.lock().await;
-        write_message_async(&mut *writer, msg).await?;
-        writer.flush().await?;
+        if writer.mid_frame {
+            // The previous request was abandoned part-way (the calling future was
+            // dropped while it held this lock, or its write failed). Nothing may
+            // follow a torn frame on this connection: close it instead of writing.
+            let _ = writer.io.get_mut().shutdown().await;
+            return Err(RepeError::Io(std::io::Error::new(
+                ErrorKind::ConnectionAborted,
+                "connection closed: an earlier request was abandoned mid-frame",
+            )));
+        }
+        writer.mid_frame = true;
+        write_message_async(&mut writer.io, msg).await?;
+        writer.io.flush().await?;
+        writer.mid_frame = false;
         Ok(())
     }
 
@@ -873,7 +899,7 @@ async fn fail_all_pending(inner: &std::sync::Weak<AsyncClientInner>, err: RepeEr
 
     {
         let mut writer = inner_ref.writer.lock().await;
-        let _ = writer.shutdown().await;
+        let _ = writer.io.shutdown().await;
     }
 
     let waiters = {
